@@ -199,6 +199,71 @@ def check_cp(ck, L, X, names, comps, st):
     return cps
 
 
+def root_probe(ck, L, X, st, tier):
+    """f'(E) (Fi) changes sign inside its table for every element: at a root, and at the doubles next to it, the real part of the
+    refractive index is as well defined as anywhere else (1 - delta with delta from Z + f').  The roots are located at run time by
+    bisection down to neighbouring doubles; a value of exactly 0 or a failure there is the 'legitimate zero taken for a failure' defect."""
+    mac = refdata.Macros()
+    K = mac['R_E'] * 100.0 * (mac['KEV2ANGST'] * 1e-8) ** 2 * (mac['AVOGNUM'] * 1e24) / (2 * math.pi)
+    Zs = np.array([9, 10, 14, 17, 18, 26, 29, 47, 79, 82] if tier == 'quick' else list(range(3, 99, 2)))
+    grid = np.exp(np.linspace(np.log(0.2), np.log(700.0), 600 if tier == 'quick' else 3000))
+    ZZ, EE = np.repeat(Zs, len(grid)), np.tile(grid, len(Zs))
+    f = L.call('Fi', ZZ, EE)
+    fv = np.where(f.ok, f.v, np.nan).reshape(len(Zs), -1)
+    lo, hi, zz = [], [], []
+    for a, Z in enumerate(Zs):
+        sgn = np.sign(fv[a])
+        for k in np.nonzero((sgn[:-1] * sgn[1:] < 0))[0][:4]:
+            lo.append(grid[k]); hi.append(grid[k + 1]); zz.append(Z)
+    if len(lo) < 5:
+        raise common.Inconclusive('found only %d sign changes of Fi' % len(lo))
+    lo, hi, zz = np.array(lo), np.array(hi), np.array(zz)
+    flo = L.call('Fi', zz, lo).v
+    for _ in range(70):                                   # bisection on all brackets at once, down to neighbouring doubles
+        mid = 0.5 * (lo + hi)
+        mid = np.where((mid <= lo) | (mid >= hi), hi, mid)
+        fm_ = L.call('Fi', zz, mid).v
+        same = np.sign(fm_) == np.sign(flo)
+        lo = np.where(same & (mid < hi), mid, lo); flo = np.where(same & (mid < hi), fm_, flo)
+        hi = np.where(~same, mid, hi)
+    # probe the two sides of each root, ulp by ulp
+    Ez, Zz = [], []
+    for a in range(len(lo)):
+        e = float(lo[a])
+        for _ in range(40):
+            e = float(np.nextafter(e, 0.0))
+        for _ in range(120):
+            Ez.append(e); Zz.append(int(zz[a])); e = float(np.nextafter(e, np.inf))
+    Ez, Zz = np.array(Ez), np.array(Zz)
+    sym = {int(Z): X.symbol(int(Z)) for Z in set(Zz.tolist())}
+    names = [sym[int(z)] for z in Zz]
+    mixed = [sym[int(z)] + ('2O3' if int(z) != 8 else 'H2') for z in Zz]
+    fi, aw = L.multi([('Fi', Zz, Ez), ('AtomicWeight', Zz)])
+    st['calls'] += len(Ez) * 4
+    nzero = int((fi.ok & (fi.v == 0.0)).sum())
+    for nm, what in ((names, 'element'), (mixed, 'compound')):
+        re_ = L.call('Refractive_Index_Re', nm, Ez, 1.0)
+        cx_ = L.special('Refractive_Index', s=nm, d=[Ez, 1.0])
+        for r_, fn in ((re_, 'Refractive_Index_Re'), (cx_, 'Refractive_Index')):
+            bad = np.nonzero(fi.ok & (r_.err | (r_.v == 0.0) | ~(np.abs(1.0 - r_.v) < 1e-2)))[0]
+            for k in bad[:2]:
+                ck.violation('c06:%s:fails-at-a-root-of-Fi:%s' % (fn, what),
+                             '%s(%r, %.17g, 1.0) gives %s although Fi(%d, E) = %r is defined (E within %d doubles of a root of f\')' % (
+                                 fn, nm[k], float(Ez[k]), ('error: %s' % r_.msg(k)) if r_.err[k] else repr(float(r_.v[k])), int(Zz[k]), float(fi.v[k]), 120),
+                             dict(call='%s(%r,%.17g,1.0)' % (fn, nm[k], float(Ez[k])), Fi=float(fi.v[k]), config=L.config))
+        # the pure element: delta from the formula
+        if what == 'element':
+            ok = fi.ok & re_.ok & aw.ok
+            dref = K * (Zz + fi.v) / aw.v / (Ez * Ez)
+            bad = np.nonzero(ok & ~(np.abs((1.0 - re_.v) - dref) <= TOL_RI * np.abs(dref) + ABS_DELTA))[0]
+            for k in bad[:2]:
+                ck.violation('c06:Refractive_Index_Re:wrong-delta:at-a-root-of-Fi', '1 - Refractive_Index_Re(%r, %.17g, 1.0) = %r, formula gives %r' % (nm[k], float(Ez[k]), float(1 - re_.v[k]), float(dref[k])),
+                             dict(call='Refractive_Index_Re(%r,%.17g,1.0)' % (nm[k], float(Ez[k])), config=L.config))
+    st['root_probe'] = dict(roots=int(len(lo)), energies=int(len(Ez)), exact_zero_values_of_Fi=nzero,
+                                                              bracket_widths_in_ulps=float(np.max((hi - lo) / np.spacing(lo))))
+    st['classes'].add(('Refractive_Index_Re', 'root-of-Fi', 'success'))
+
+
 def check_refractive(ck, L, X, names, comps, nist_names, st):
     mac = refdata.Macros()
     # delta = r_e * lambda^2 / (2 pi) * n_e ;  n_e = rho * N_A * sum w (Z + f') / A ;  r_e in cm, lambda = KEV2ANGST / E * 1e-8 cm
@@ -354,6 +419,8 @@ def main(tier):
             raise common.Inconclusive('workload did not resolve: %r' % ncomp[config])
         check_cp(ck, L, X, names, comps, st)
         nre, nim = check_refractive(ck, L, X, names, comps, nist_names, st)
+        if config == 'shipped':
+            root_probe(ck, L, X, st, tier)
         if nre < 1000 or nim < 1000:
             raise common.Inconclusive('too few refractive-index comparisons (%d, %d) in %s' % (nre, nim, config))
         for fn in kissel_fns:
@@ -371,7 +438,7 @@ def main(tier):
                samples=st['samples'][:14], exhaustive=False, compared_on_success=st['compared'], workload=ncomp,
                energies=ENERGIES, thetas=THETAS, phis=PHIS, densities=DENSITIES,
                worst_relative_difference_cp=st['worst_cp'], worst_relative_difference_delta=st['worst_delta'], worst_relative_difference_im=st['worst_im'],
-               per_function=st['per_function'], nist_names_resolved_as_formula=st.get('nist_names_resolved_otherwise', []))
+               per_function=st['per_function'], root_of_Fi_probe=st.get('root_probe'), nist_names_resolved_as_formula=st.get('nist_names_resolved_otherwise', []))
     return ck.finish(cov, ['compositions are taken from the public CompoundParser / GetCompoundDataNISTByName (whether the parser is right is C07)',
                            'elemental functions are taken as they are (their values are C01/C02/C05)',
                            'refractive-index constants are derived from R_E, KEV2ANGST and AVOGNUM of the public header; tolerance 1e-7 covers the library literals',
